@@ -17,6 +17,8 @@ SPECS = ([{"op": o} for o in ("sum", "count", "size", "mean", "value_counts")]
          + [{"op": o, "kind": "frame", "groupby": g, "window": ("n", 2)}
             for o in ("sum", "count", "mean", "size", "var") for g in ("column", "stream")]
          + [{"op": o, "kind": "frame", "groupby": "column", "window": ("value", 3)} for o in ("sum", "count")]
+         + [{"op": o, "kind": "frame2"} for o in ("sum", "count", "mean")]
+         + [{"op": "mean", "kind": "frame2", "window": ("n", 2)}]
          + [{"op": o} for o in ("cumsum", "cummax", "cummin", "cumprod")]
          + [{"op": "rolling_" + o, "rolling": ("n", n)} for o in ("sum", "mean", "count", "min", "max")
             for n in (1, 2, 3)]
